@@ -225,6 +225,18 @@ def reader_table(ctx, b):
             row["payload"] = prim_of(cfg.callee_full(dec[0][1])) if len(dec) == 1 else None
             if len(dec) != 1:
                 row["why"] = "inline value is not decoded by exactly one from_le_bytes()"
+            else:
+                # the decoded array is the one filled from value_index.value()
+                cps = [(i, t) for i, t in cfg.calls(b) if i in reg and last(cfg.callee(t)) == "copy_from_slice"]
+                arr = cfg.op_origin(b, dec[0][1]["a"][0])
+                good = len(cps) == 1 and len(iv) == 1 and arr is not None
+                if good:
+                    dst = cfg.op_origin(b, cps[0][1]["a"][0])
+                    src = cfg.op_origin(b, cps[0][1]["a"][1])
+                    good = dst is not None and dst[0] == arr[0] and src is not None and src[0] == iv[0][1]["d"][0]
+                if not good:
+                    row["place"] = "?"
+                    row["why"] = "from_le_bytes() does not decode the bytes copied from value_index.value()"
         elif st and not iv:
             row["place"] = "out" if idx_ok and len(st) == 1 else "?"
             if not idx_ok:
@@ -248,8 +260,6 @@ def reader_table(ctx, b):
         tbl[v] = row
     # the default arm must not construct a value (unknown tags are rejected, not decoded)
     dflt = cfg.reachable(b, [t0["else"]], avoid=[i0])[0] if t0.get("else") is not None else set()
-    for v, r in regs.items():
-        pass
     dflt_only = set(dflt)
     for v, tb in t0["ts"]:
         dflt_only -= cfg.reachable(b, [tb], avoid=[i0])[0]
@@ -472,8 +482,6 @@ def run(ctx):
     # ---------------- R12c
     if wt is not None and rt is not None and "F64" in wt:
         wr = wt["F64"]
-        seq = [last(cfg.callee(t)) for i, t in sorted(cfg.calls(w)) if i in wr["region"] and
-               cfg.find_path(w, [wr["start"]], [i]) is not None]
         order = []
         cur = wr["start"]
         # straight-line arm: follow the unique successor chain inside the region
